@@ -359,7 +359,7 @@ func main() {
 		return
 	}
 	f := lib.ParseFlags()
-	emptyDir := filepath.Join("/verif/.work/c01", fmt.Sprintf("empty-%d", os.Getpid()))
+	emptyDir := filepath.Join(lib.Root(), ".work/c01", fmt.Sprintf("empty-%d", os.Getpid()))
 	os.RemoveAll(emptyDir)
 	if err := os.MkdirAll(emptyDir, 0o755); err != nil {
 		lib.Fatal("%v", err)
@@ -724,7 +724,7 @@ var partialRe = regexp.MustCompile(`(?m)^\s*(private\s+|protected\s+)?partial\s+
 // partialDefs lists `partial def`s in lean/Goyang/Model (Proto.lean excepted: the stdin loop).
 func partialDefs() []string {
 	var out []string
-	files, _ := filepath.Glob("/verif/lean/Goyang/Model/*.lean")
+	files, _ := filepath.Glob(lib.Root() + "/lean/Goyang/Model/*.lean")
 	for _, p := range files {
 		if filepath.Base(p) == "Proto.lean" {
 			continue
@@ -861,7 +861,7 @@ func (a *agg) evaluate(f *lib.Flags, d *driver, j job, h *History, v *Verdict, o
 				n := atomic.AddInt64(&a.driverBad, 1)
 				if n <= 5 {
 					raw, _ := json.Marshal(h)
-					os.WriteFile(fmt.Sprintf("/verif/.work/c01/driver-fail-%d.json", n), raw, 0o644)
+					os.WriteFile(fmt.Sprintf(lib.Root()+"/.work/c01/driver-fail-%d.json", n), raw, 0o644)
 				}
 			case strings.HasPrefix(ans, "outsideModel"):
 				why = "statement the resolver model does not interpret (" + strings.TrimSpace(strings.TrimPrefix(ans, "outsideModel")) + ")"
